@@ -132,7 +132,7 @@ Definition run_sliced_from (b : option vm) (m x : N) (forms : list text) : list 
 (* ------------------------------------- registers after each datum (74) *)
 Definition show_state (s : vm) (tr : option trace) : list N :=
   S_ " [sp="%string ++ show_N (sp s) ++ S_ " bp="%string ++ show_N (bp s)
-  ++ S_ " cap="%string ++ show_N (len (stack s)) ++ S_ " frames="%string
+  ++ S_ " cap="%string ++ show_N (scap s) ++ S_ " frames="%string
   ++ match tr with Some fs => show_N (len fs) | None => [45] end ++ [93].
 
 Fixpoint state_text_all (ef : nat) (fuel : nat) (t : text) (s : vm) (acc : list N) : list N * vm :=
